@@ -25,6 +25,7 @@ import Cellml.Tie.LoaderUnitsOrder
 namespace Cellml.Props.C01Gen
 open Load PMap Cellml.Tie Cellml.Tie.GenA Cellml.Gen
 open Cellml.Props.C01
+open Cellml.Tie.PMathsWalk (BadWF)
 
 /-! ## 1. The work list terminates and builds a forest -/
 
@@ -195,12 +196,12 @@ theorem docSat_withUnits {doc : Doc} {us : List UnitDecl} {L : Loaded} {den : Sc
 
 /-- a successful run of the generated `parse` is a successful `Load.load` of the same document, its `<units>`
     elements taken in the order the work list added them — no hypothesis relating `fd.udefs` and `fd.doc.units` -/
-theorem load_of_parse_gen {fd : C17.FaultDoc} {us : Option Unit} {F : Flat}
+theorem load_of_parse_gen {fd : C17.FaultDoc} (hb : BadWF fd = true) {us : Option Unit} {F : Flat}
     (hgen : (genParse fd us).map (·.flat) = .ok (some F)) :
     ∃ reg ust srt, Units.addUnits 0 fd.udefs = .ok (reg, ust) ∧ SortedFrom fd.udefs srt ∧
       load (withUnits fd.doc srt) = .ok F ∧
       prepare (withUnits fd.doc srt) = C17.prepareFrom reg ust fd.doc ∧ InitOnSources fd.doc := by
-  have hfull := (parse_ok_iff fd us F).mp hgen
+  have hfull := (parse_ok_iff fd hb us F).mp hgen
   obtain ⟨hs, _, _, _⟩ := loadFull_ok_parts hfull
   obtain ⟨reg, ust, hu, hF⟩ := loadFull_ok_loadFrom hfull
   obtain ⟨srt, hsrt, hl, hp⟩ := load_agrees fd.doc hu
@@ -210,34 +211,35 @@ theorem load_of_parse_gen {fd : C17.FaultDoc} {us : Option Unit} {F : Flat}
     through `rootOf`, is a physical solution of the document. (`L` is what the loader computed on the units of the
     work list; the statement is `load_sound`'s, with `Load.prepare` replaced by the same function after its unit
     stage.) -/
-theorem load_sound_gen {fd : C17.FaultDoc} {us : Option Unit} {F : Flat} {den : Scale → Rat}
+theorem load_sound_gen {fd : C17.FaultDoc} (hb : BadWF fd = true) {us : Option Unit} {F : Flat} {den : Scale → Rat}
     (hgen : (genParse fd us).map (·.flat) = .ok (some F))
     (τ : VRef → Rat) (δ : VRef → VRef → Rat) (hsat : FlatSat den F τ δ) :
     ∃ reg ust L, Units.addUnits 0 fd.udefs = .ok (reg, ust) ∧ C17.prepareFrom reg ust fd.doc = .ok L ∧
       DocSat fd.doc L den (fun v => τ (rootOf L.st v)) (fun x t => δ (rootOf L.st x) (rootOf L.st t)) := by
-  obtain ⟨reg, ust, srt, hu, _, hload, hprep, hvalid⟩ := load_of_parse_gen hgen
+  obtain ⟨reg, ust, srt, hu, _, hload, hprep, hvalid⟩ := load_of_parse_gen hb hgen
   obtain ⟨L, hL, hsatD⟩ := load_sound (doc := withUnits fd.doc srt) hload hvalid τ δ hsat
   exact ⟨reg, ust, L, hu, hprep ▸ hL, docSat_withUnits.mp hsatD⟩
 
 /-- … and in the words of `Load.load` itself: the same conclusion for `Load.prepare` on the document whose units are
     in the work list's order -/
-theorem load_sound_gen_sorted {fd : C17.FaultDoc} {us : Option Unit} {F : Flat} {den : Scale → Rat}
+theorem load_sound_gen_sorted {fd : C17.FaultDoc} (hb : BadWF fd = true) {us : Option Unit} {F : Flat} {den : Scale → Rat}
     (hgen : (genParse fd us).map (·.flat) = .ok (some F))
     (τ : VRef → Rat) (δ : VRef → VRef → Rat) (hsat : FlatSat den F τ δ) :
     ∃ srt L, SortedFrom fd.udefs srt ∧ load (withUnits fd.doc srt) = .ok F ∧ prepare (withUnits fd.doc srt) = .ok L ∧
       DocSat fd.doc L den (fun v => τ (rootOf L.st v)) (fun x t => δ (rootOf L.st x) (rootOf L.st t)) := by
-  obtain ⟨reg, ust, srt, hu, hsrt, hload, hprep, hvalid⟩ := load_of_parse_gen hgen
+  obtain ⟨reg, ust, srt, hu, hsrt, hload, hprep, hvalid⟩ := load_of_parse_gen hb hgen
   obtain ⟨L, hL, hsatD⟩ := load_sound (doc := withUnits fd.doc srt) hload hvalid τ δ hsat
   exact ⟨srt, L, hsrt, hload, hL, docSat_withUnits.mp hsatD⟩
 
 /-- `load_complete` for the generated `parse`: every physical solution of the document solves the flat model it
     returns. -/
-theorem load_complete_gen {fd : C17.FaultDoc} {us : Option Unit} {F : Flat} {den : Scale → Rat} (hden : DenOK den)
+theorem load_complete_gen {fd : C17.FaultDoc} (hb : BadWF fd = true) {us : Option Unit} {F : Flat} {den : Scale → Rat}
+    (hden : DenOK den)
     (hgen : (genParse fd us).map (·.flat) = .ok (some F))
     (σ : VRef → Rat) (δ : VRef → VRef → Rat) (reg : Registry) (ust : Units.Store) (L : Loaded)
     (hu : Units.addUnits 0 fd.udefs = .ok (reg, ust)) (hprep : C17.prepareFrom reg ust fd.doc = .ok L)
     (hsat : DocSat fd.doc L den σ δ) : FlatSat den F σ δ := by
-  obtain ⟨reg', ust', srt, hu', _, hload, hprep', hvalid⟩ := load_of_parse_gen hgen
+  obtain ⟨reg', ust', srt, hu', _, hload, hprep', hvalid⟩ := load_of_parse_gen hb hgen
   rw [hu] at hu'
   simp only [Except.ok.injEq, Prod.mk.injEq] at hu'
   obtain ⟨rfl, rfl⟩ := hu'
@@ -250,7 +252,7 @@ open Cellml.Props.C17 (relayFd relay_loadFull relay_addUnits relay_buildUnits mV
 /-- the generated `parse` returns the flat model of the relay document -/
 theorem relay_parse_gen (us : Option Unit) :
     (genParse relayFd us).map (·.flat) = .ok (some (relayL.flat relayDoc)) :=
-  (parse_ok_iff relayFd us _).mpr relay_loadFull
+  parse_ok_of_loadFull us relay_loadFull
 
 /-- the closed generated loop resolves its two connections (with one rotation of the deque) -/
 example : genConnect relayUnits.1 relayVt relayDl = .ok relaySt :=
@@ -259,7 +261,7 @@ example : genConnect relayUnits.1 relayVt relayDl = .ok relaySt :=
 /-- `load_sound_gen` applied (no side condition on the units any more) -/
 example : ∃ reg ust L, Units.addUnits 0 relayFd.udefs = .ok (reg, ust) ∧ C17.prepareFrom reg ust relayDoc = .ok L ∧
     DocSat relayDoc L denInt (fun v => relayτ (rootOf L.st v)) (fun _ _ => 0) :=
-  load_sound_gen (fd := relayFd) (relay_parse_gen none) relayτ (fun _ _ => 0) relay_flatSat
+  load_sound_gen (fd := relayFd) rfl (relay_parse_gen none) relayτ (fun _ _ => 0) relay_flatSat
 
 /-- `direction_swap_gen` is not vacuous -/
 example : (ConnDir.determineConnectionDirection (loaderView relayPar relayVt) "channel" "V" "gate" "v").map
